@@ -195,8 +195,22 @@ def _minmax(fn):
     return f
 
 
+def _recip(fn):
+    """Reciprocal functions of the default table (sec = 1/cos ...), away from their poles."""
+    def f(z):
+        d = fn(z)
+        if abs(d) < 1e-3:
+            raise Discard('pole')
+        return 1 / d
+    return f
+
+
 # name -> (arities, implementation)
 REF_FUNCS = {
+    'sec': ((1,), _recip(_cos)), 'csc': ((1,), _recip(_sin)), 'cot': ((1,), _recip(_tan)),
+    'sech': ((1,), _recip(_cosh)), 'csch': ((1,), _recip(_sinh)),
+    'coth': ((1,), lambda z: _recip(_sinh)(z) * _cosh(z)),
+    'log10': ((1,), lambda z: _ln(z) / math.log(10)), 'log2': ((1,), lambda z: _ln(z) / math.log(2)),
     'sin': ((1,), _sin), 'cos': ((1,), _cos), 'tan': ((1,), _tan), 'exp': ((1,), _exp),
     'sqrt': ((1,), _sqrt), 'abs': ((1,), abs), 'ln': ((1,), _ln), 'arctan': ((1,), _arctan),
     'sinh': ((1,), _sinh), 'cosh': ((1,), _cosh), 're': ((1,), _re), 'im': ((1,), _im), 'conj': ((1,), _conj),
@@ -514,7 +528,8 @@ def ops_of(t, acc=None):
 def trees(var_names=None, func_names=None, suffixes=None, max_leaves=10, consts=True):
     var_names = VAR_NAMES if var_names is None else var_names
     func_names = ['sin', 'cos', 'exp', 'sqrt', 'abs', 'ln', 'arctan', 'cosh', 're', 'im', 'conj', 'min', 'max',
-                  'f', 'g', "f'", 'sq_2', 'tan', 'sinh'] if func_names is None else func_names
+                  'f', 'g', "f'", 'sq_2', 'tan', 'sinh', 'sec', 'csc', 'cot', 'sech', 'csch', 'coth', 'log10',
+                  'log2'] if func_names is None else func_names
     pool = list(var_names) + (['pi', 'e', 'i', 'j'] if consts else [])
     leaf = st.one_of(number_literals(suffixes), number_literals(suffixes),
                      st.sampled_from(pool).map(lambda n: ['var', n])) if pool else number_literals(suffixes)
